@@ -145,6 +145,93 @@ def run(argv, stdin=b'', cwd=None, env=None, timeout=20, preexec=None):
     return Result(p.returncode, out, err, to, time.time() - t0)
 
 
+def run_progress(argv, stdin=b'', cwd=None, env=None, idle=60, total=600, preexec=None):
+    """like run(), but the verdict on a process that does not end is based on PROGRESS: the editor (hook
+    neatvi_verif_progress) writes one byte per executed command to a pipe.  Returns (Result, state, commands) with state
+    'done', 'stuck' (no command finished for `idle` seconds) or 'running' (still executing commands after `total` seconds)."""
+    import selectors
+    t0 = time.time()
+    pr, pw = os.pipe()
+    os.set_blocking(pw, False)
+    env = dict(env or {})
+    env['NEATVI_VERIF_PROGRESS'] = str(pw)
+    p = subprocess.Popen(argv, stdin=subprocess.PIPE, stdout=subprocess.PIPE, stderr=subprocess.PIPE,
+                         cwd=cwd, env=env, start_new_session=True, preexec_fn=preexec, pass_fds=(pw,))
+    os.close(pw)
+    sel = selectors.DefaultSelector()
+    for f in (p.stdout, p.stderr):
+        os.set_blocking(f.fileno(), False)
+        sel.register(f, selectors.EVENT_READ)
+    os.set_blocking(pr, False)
+    sel.register(pr, selectors.EVENT_READ)
+    os.set_blocking(p.stdin.fileno(), False)
+    sel.register(p.stdin, selectors.EVENT_WRITE)
+    out, err = [], []
+    pos = 0
+    ncmd = 0
+    last = time.time()
+    state = 'done'
+    open_streams = 2
+    while open_streams:
+        now = time.time()
+        if now - last > idle:
+            state = 'stuck'
+            break
+        if now - t0 > total:
+            state = 'running'
+            break
+        for key, ev in sel.select(timeout=1.0):
+            f = key.fileobj
+            if f is p.stdin:
+                try:
+                    pos += os.write(p.stdin.fileno(), stdin[pos:pos + 65536])
+                except (BrokenPipeError, BlockingIOError):
+                    pass
+                except OSError:
+                    pos = len(stdin)
+                if pos >= len(stdin):
+                    sel.unregister(p.stdin)        # kept open: EOF would make the editor spin
+            elif f == pr:
+                try:
+                    b = os.read(pr, 65536)
+                except BlockingIOError:
+                    b = b'x'
+                if b:
+                    ncmd += len(b)
+                    last = time.time()
+                else:
+                    sel.unregister(pr)
+            else:
+                try:
+                    b = f.read(1 << 16)
+                except BlockingIOError:
+                    b = None
+                if b == b'':
+                    sel.unregister(f)
+                    open_streams -= 1
+                elif b:
+                    (out if f is p.stdout else err).append(b)
+    try:
+        os.killpg(p.pid, signal.SIGKILL)
+    except (ProcessLookupError, PermissionError):
+        pass
+    try:
+        p.stdin.close()
+    except OSError:
+        pass
+    if state == 'done':
+        for f, acc in ((p.stdout, out), (p.stderr, err)):
+            pass
+    p.wait()
+    os.close(pr)
+    for f in (p.stdout, p.stderr):
+        try:
+            f.close()
+        except OSError:
+            pass
+    return Result(p.returncode, b''.join(out), b''.join(err), state != 'done', time.time() - t0), state, ncmd
+
+
 VI_QUIT = b'\x1b\x1b:\x05q!\n' * 60      # each ESC may only close one pending text block / prompt
 EX_QUIT = b'.\nq!\n' * 150            # :g/re/a reads one text block per matching line
 
